@@ -51,6 +51,7 @@ def run(rep, prog, tier):
     _r4(rep, prog)
     _r5(rep, prog)
     _r6(rep, prog)
+    _r7(rep, prog)
 
 
 def _r6(rep, prog):
@@ -99,6 +100,36 @@ def _r6(rep, prog):
     rep.check(bad is None, R, "Key::partial_cmp does not order numeric keys by their variant", "no result is the comparison of the two discriminants",
               "<Key as PartialOrd>::partial_cmp (derived) answers with the comparison of the two enum discriminants when the operands are of different variants: the keys -2.5, -1, 0.5, 2, 3.5, 4 of a terms aggregation on an "
               "f64 column, `order: {_key: asc}`, come out as -1, 2, 4, -2.5, 0.5, 3.5, and with `size: 2` the wrong SET of buckets (-1, 2) is returned", site=site(b, bad) if bad is not None else b.span)
+
+
+def _r7(rep, prog):
+    """the `missing` bucket of a terms aggregation is merged with a real bucket of the same key"""
+    R = "C14-R7"
+    rep.rule(R, "one map, two sources of keys: for a string column the per-segment result map of the terms aggregation is filled from the `missing` parameter of the request (extract_missing_value) and from the dictionary terms (the closure given to sorted_ords_to_term_cb, a plain HashMap::insert). The two can carry the same key (`missing: \"c3\"` on a segment that contains `c3`). Rule: the key that comes from extract_missing_value is never put into the map with a plain HashMap::insert from which the population by sorted_ords_to_term_cb is still reachable — it has to be added afterwards through the entry API (merging with an existing bucket); otherwise the later insert REPLACES the missing bucket and its documents vanish, depending on the partition")
+    fid = None
+    for n in prog.bodies:
+        if n.endswith("::into_intermediate_bucket_result") and "term_agg::SegmentTermCollector" in n:
+            fid = n
+    b = prog.body(fid) if fid else None
+    if not rep.check(b is not None, R, "SegmentTermCollector::into_intermediate_bucket_result present", "found", "cannot establish: SegmentTermCollector::into_intermediate_bucket_result not found"):
+        return
+    cbs = [bi for bi, t in b.calls() if (t.get("f") or "").endswith("sorted_ords_to_term_cb")]
+    miss_plain, miss_entry = [], []
+    for bi, t in b.calls():
+        f = t.get("f") or ""
+        if not re.search(r"hash::map::HashMap::<K, V, S, A>::(insert|entry)$", f) or len(t["args"]) < 2 or op_local(t["args"][1]) is None:
+            continue
+        lv = provenance(b, op_local(t["args"][1]))
+        if any(x[0] == "call" and x[1].endswith("extract_missing_value") for x in lv):
+            (miss_plain if f.endswith("::insert") else miss_entry).append(bi)
+    if not rep.check(bool(cbs) and bool(miss_plain or miss_entry), R, "both populations found", "sorted_ords_to_term_cb at %s, missing bucket at %s" % (cbs, miss_plain + miss_entry),
+                     "cannot establish: into_intermediate_bucket_result no longer shows the two populations of the string result map (sorted_ords_to_term_cb %s, missing %s)" % (cbs, miss_plain + miss_entry), site=b.span):
+        return
+    bad = [m for m in miss_plain if set(cbs) & set(b.reachable((m,)))]
+    rep.check(not bad, R, "the missing bucket cannot be replaced by a real term of the same key", "added through HashMap::entry after the dictionary terms" if miss_entry else "no plain insert before the dictionary terms",
+              "into_intermediate_bucket_result puts the `missing` bucket into the result map with a plain HashMap::insert and then fills the map with the dictionary terms, also by plain insert: when the segment contains a term equal "
+              "to the `missing` value, the missing bucket is replaced — docs c3, c3, (none) x3, c1 with `missing: \"c3\"` give c3 -> 2 in one segment (3 documents vanished) and c3 -> 5 when the value-less documents are in "
+              "another segment", site=site(b, bad[0]) if bad else b.span)
 
 
 def _merge_functions(prog):
